@@ -197,6 +197,49 @@ def all_app_terms(fmls):
     return [t for t in acc if t.decl().kind() == z3.Z3_OP_UNINTERPRETED and t.num_args() > 0 and not _has_var(t)]
 
 
+def _has_array_equality(fmls):
+    seen = set()
+    stack = list(fmls)
+    while stack:
+        t = stack.pop()
+        if t.get_id() in seen:
+            continue
+        seen.add(t.get_id())
+        if z3.is_quantifier(t):
+            stack.append(t.body())
+            continue
+        if z3.is_app(t):
+            if t.decl().kind() in (z3.Z3_OP_EQ, z3.Z3_OP_DISTINCT) and t.num_args() and z3.is_array_sort(t.arg(0)):
+                return True
+            stack.extend(t.children())
+    return False
+
+
+def _witness_array_diseq(t, pos, ctr):
+    """t with every array equality in negative position replaced by equality at a fresh witness index (stronger when negated)."""
+    if z3.is_quantifier(t) or not z3.is_app(t) or not _has_array_equality([t]):
+        return t
+    k = t.decl().kind()
+    if k == z3.Z3_OP_EQ and z3.is_array_sort(t.arg(0)):
+        if pos:
+            return t
+        ctr[0] += 1
+        w = z3.Int(f"diff!{ctr[0]}")
+        return z3.Select(t.arg(0), w) == z3.Select(t.arg(1), w)
+    if k == z3.Z3_OP_NOT:
+        a = _witness_array_diseq(t.arg(0), not pos, ctr)
+        return None if a is None else z3.Not(a)
+    if k in (z3.Z3_OP_AND, z3.Z3_OP_OR):
+        xs = [_witness_array_diseq(c, pos, ctr) for c in t.children()]
+        if any(x is None for x in xs):
+            return None
+        return z3.And(*xs) if k == z3.Z3_OP_AND else z3.Or(*xs)
+    if k == z3.Z3_OP_IMPLIES:
+        a, b = _witness_array_diseq(t.arg(0), not pos, ctr), _witness_array_diseq(t.arg(1), pos, ctr)
+        return None if a is None or b is None else z3.Implies(a, b)
+    return None      # array equality under ite / iff / a function: polarity undetermined
+
+
 def refute_query(hyps, goal, rounds=2, cap=600, bound=4):
     """Quantifier-free query for the refuting mode: negated goal skolemised, quantified hypotheses instantiated
     only at the index terms of the negated goal, integer constants bounded to steer towards small models.
@@ -262,6 +305,18 @@ def refute_query(hyps, goal, rounds=2, cap=600, bound=4):
         # a model of the rest says nothing about the goal
         return None
     out = list({f.get_id(): f for f in ground + new_all + gground}.values())
+    if bound is not None and _has_array_equality(out):
+        # an array equality the solver makes false is witnessed by an index of its own choosing, which the small index domain the
+        # quantified hypotheses were instantiated over does not cover: give every equality that occurs negatively an explicit witness
+        # index (a constant, confined to the domain like every other integer); undetermined polarity = no refutation attempted
+        ctr = [0]
+        out2 = []
+        for f in out:
+            g = _witness_array_diseq(f, True, ctr)
+            if g is None:
+                return None
+            out2.append(g)
+        out = out2
     if bound is not None:
         for c in int_consts(out):
             out.append(z3.And(c >= -1, c <= bound))
